@@ -60,7 +60,7 @@ def enumerate_cases(tier, seed):
   for s in specs:
     if s[0] in ("qb", "qr", "po2", "rpo2") and s[1] > 5:
       continue
-    if s[0] in ("float", "bernoulli"):     # bernoulli samples: no deterministic reachable set to replay
+    if s[0] in ("float", "float16", "bernoulli"):     # bernoulli samples: no deterministic reachable set to replay
       continue
     cases.append(dict(sub="conformance", spec=list(s)))
   return cases
@@ -151,6 +151,13 @@ def run_pairs(case):
     if wd.kind == "float" or xd.kind == "float":
       if od.kind != "float":
         bad("float-output", "%r x %r: a floating point operand gives non-float output %r" % (wspec, xspec, od), xspec)
+      else:
+        need = max(d.bits for d in (wd, xd) if d.kind == "float")
+        if od.bits < need:
+          # a product with the factor 1.0 is the other factor itself: the result format must hold every value of the
+          # widest floating point operand
+          bad("float-output-width", "%r x %r: %d-bit floating point output cannot hold the values of the %d-bit floating "
+              "point operand" % (wspec, xspec, od.bits, need), xspec)
       continue
     if od.kind == "float":
       continue
